@@ -263,7 +263,7 @@ def flush(run, pend):
     if run.model is None:
         pend.clear()
         return
-    ans = run.model.ask([p[2] for p in pend], chunk=128)
+    ans = lo.ask(run.model, [p[2] for p in pend])
     for (stream, case, req, real, indom), m in zip(pend, ans):
         run.traces += 1
         if stream == "header":
@@ -404,7 +404,8 @@ def still_fails(spec, vkey, wrap, c):
 
         def fail(self, clause, case, detail=None):
             f = dict(clause=clause, case=case, detail=detail)
-            if classify(f) is None:
+            kid = classify(f)
+            if kid is None or kid not in fw.known_ids(ID):
                 self.failures.append(f)
     r = R()
     r.failures = []
